@@ -59,6 +59,10 @@ struct Coll {
 fn name_of(i: u64) -> String {
     match i % 11 {
         3 => format!("{}-é{}", i * 7 + 3, i),
+        // bytes whose base64 uses the two symbols that differ between the
+        // standard and the URL-safe alphabet ('~', '?', '>' and most non-ASCII text)
+        5 => format!("{}~?>{}", i * 7 + 3, "?".repeat((i % 3) as usize)),
+        9 => format!("{}日本語{}", i * 7 + 3, "~".repeat((i % 3) as usize)),
         7 => format!("z{:03}", i),
         _ => format!("{}", i * 7 + 3),
     }
